@@ -1,4 +1,4 @@
-package c03
+package c07
 
 import (
 	"testing"
@@ -8,8 +8,7 @@ import (
 
 func TestReplay(t *testing.T) {
 	verif.ReplayMain(map[string]func(){
-		"HarnessFaults": HarnessFaults,
-		"HarnessNotify": HarnessNotify,
-		"HarnessRetry":  HarnessRetry,
+		"HarnessEndToEnd":   HarnessEndToEnd,
+		"HarnessServerWire": HarnessServerWire,
 	})
 }
